@@ -410,8 +410,57 @@ func raceRuns(mode string, runs int) {
 	fmt.Printf("ok race mode=%s runs=%d maps_written_after_return=%d\n", mode, runs, lateWrites)
 }
 
+// panicRun: chain 0 <- 1 <- 2 plus an independent node 3, W workers; node 0's task panics inside the pool.  What the real code
+// does with a crashing task is its own business (today: the process dies), but whatever it does, node 1 and node 2 must not
+// start and node 0 must not be reported successful.  Every observation is printed at once (the process may die any moment).
+func panicRun(W int, ff bool) {
+	config.Global.DisableNonDeterministicLogging = true
+	deps := [][]int{{}, {0}, {1}, {}}
+	g, ts := fromDeps(deps)
+	idx := map[label.TargetLabel]int{}
+	for i, t := range ts {
+		idx[t.Label] = i
+	}
+	base, logger := newLoggerCtx()
+	outer, cancel := context.WithCancel(base)
+	defer cancel()
+	pool := worker.NewTaskWorkerPool[dag.CacheResult](logger, W, func(_ tea.Msg) {}, 4)
+	pool.StartWorkers(outer)
+	cb := func(ctx context.Context, node model.BuildNode) (dag.CacheResult, error) {
+		i := idx[node.GetLabel()]
+		return pool.Run(func(update worker.StatusFunc) (dag.CacheResult, error) {
+			fmt.Printf("started %d\n", i)
+			if i == 0 {
+				time.Sleep(2 * time.Millisecond)
+				var m map[string]int
+				m["boom"] = 1 // a genuine runtime panic inside the task
+			}
+			time.Sleep(5 * time.Millisecond)
+			return dag.CacheMiss, nil
+		})
+	}
+	w := dag.NewWalker(g, cb, ff)
+	done := make(chan struct{})
+	go func() {
+		cm, err := w.Walk(outer)
+		for l, c := range cm {
+			fmt.Printf("completion %d success=%v\n", idx[l], c.IsSuccess)
+		}
+		fmt.Printf("walk-returned err=%v\n", err != nil)
+		close(done)
+	}()
+	select {
+	case <-done:
+	case <-time.After(5 * time.Second):
+		fmt.Println("hang")
+	}
+}
+
 func main() {
 	switch os.Args[1] {
+	case "panic":
+		W, _ := strconv.Atoi(os.Args[2])
+		panicRun(W, os.Args[3] == "1")
 	case "stress":
 		n, _ := strconv.Atoi(os.Args[3])
 		runs, _ := strconv.Atoi(os.Args[4])
